@@ -329,6 +329,15 @@ func (sc *scn) bind(ssrc uint32, rtx bool) *inst {
 		in.rtxPT = uint8(r.Range(1, 127))
 		in.info.SSRCRetransmission = in.rtxSSRC
 		in.info.PayloadTypeRetransmission = in.rtxPT
+	} else if r.Chance(0.3) {
+		// half-negotiated RTX (an RTX SSRC without an RTX payload type, or the reverse) is no
+		// RTX: retransmissions keep the original form
+		if r.Bool() {
+			in.info.SSRCRetransmission = sc.freshSSRC()
+		} else {
+			in.info.PayloadTypeRetransmission = uint8(r.Range(1, 127))
+		}
+		sc.c.Add("streams_with_half_negotiated_rtx", 1)
 	}
 	in.g = &gate{sc: sc, in: in}
 	// the first true index: a multiple of 65536 plus a start near interesting 16-bit values
